@@ -241,6 +241,30 @@ def theorems_of(prop):
     return re.findall(r"^\s*Theorem\s+([A-Za-z0-9_']+)", src, re.M)
 
 
+def run_coqchk(prop):
+    """thorough tier: the independent checker re-checks the compiled property file and everything it depends on, and lists the
+    axioms of the whole context. Returns (problems, summary)."""
+    rc, out, err = run(["timeout", "1500", "coqchk", "-silent", "-o", "-Q", "theories", "Mathy", "-Q", "proofs", "MathyProofs", "-Q", "properties", "MathyProps",
+                        f"MathyProps.{prop}"], cwd=COQ, timeout=1600)
+    text = out + err
+    if rc != 0 or "CONTEXT SUMMARY" not in text:
+        return [f"coqchk failed (rc={rc}): " + text[-300:]], {}
+    summ = text[text.index("CONTEXT SUMMARY"):]
+    sections = {}
+    for m in re.finditer(r"\* ([^:\n]+):\s*(.*?)(?=\n\* |\Z)", summ, re.S):
+        sections[m.group(1).strip()] = [x.strip() for x in m.group(2).strip().splitlines() if x.strip()]
+    problems = []
+    axioms = [a for a in sections.get("Axioms", []) if a != "<none>"]
+    short = [a.replace("Coq.Reals.", "").replace("Coq.Logic.", "") for a in axioms]
+    notok = [a for a in short if a not in ALLOWED_AXIOMS]
+    if notok:
+        problems.append(f"coqchk: context depends on non-allowed axioms {notok}")
+    for k in ("Constants/Inductives relying on type-in-type", "Constants/Inductives relying on unsafe (co)fixpoints", "Inductives whose positivity is assumed"):
+        if sections.get(k, ["<none>"]) != ["<none>"]:
+            problems.append(f"coqchk: {k}: {sections[k][:3]}")
+    return problems, dict(axioms=axioms, theory=sections.get("Theory", []))
+
+
 def check_obligations(prop, build):
     """Returns dict(obligations, discharged, problems[list of str], assumptions{thm:[axioms]})."""
     res = dict(obligations=0, discharged=0, problems=[], assumptions={}, theorems=[])
